@@ -615,6 +615,14 @@ class FilteredTable:
     def sym_contains(self, it, col):
         return self.table.has(it, col)
 
+    def sym_setitem(self, it, key, val):
+        # df[mask] is a copy: a new column on it does not reach the table
+        if isinstance(key, str):
+            self.local = getattr(self, "local", {})
+            self.local[key] = val
+            return
+        raise EngineError("store into a filtered table")
+
 
 class TableView:
     def __init__(self, table, cols):
